@@ -105,6 +105,8 @@ class Run(object):
                     self.notes['unspecified_skipped'] = self.notes.get('unspecified_skipped', 0) + 1
                 continue
             if status == 'DEV':
+                if why.startswith('DEV:'):
+                    why = why[4:]
                 if self._known_open(why):
                     self.known_hit[why] = self.known_hit.get(why, 0) + 1
                     if 'known:' + why not in self.notes:
